@@ -1204,8 +1204,14 @@ impl World {
             }
         }
         // ---- C06 ----------------------------------------------------------------------------
+        // the per-node decision tracking of this pass also feeds the C09 expectations (a node whose
+        // decision history is not inferable may or may not report a change), so it always runs;
+        // its own verdicts are only kept when C06 is being judged
         if self.cfg.c06 {
             self.check_c06(k, &cone_union, &cone_end, &refs, &invokes, &folds, &cutoffs, &dirty_at_start, &mut problems);
+        } else {
+            let mut discarded = vec![];
+            self.check_c06(k, &cone_union, &cone_end, &refs, &invokes, &folds, &cutoffs, &dirty_at_start, &mut discarded);
         }
         // remember what the engine holds for each top-level node
         for n in 0..self.model.nodes.len() {
@@ -1821,6 +1827,9 @@ impl World {
         if self.st.is_none() {
             return;
         }
+        // handles leaked by bind closures (Tm::Keep) are user handles too: they go first
+        self.sh.tearing_down.set(true);
+        self.sh.kept.borrow_mut().clear();
         // one variant: every handle goes (state last), then exactly one stabilise must release everything
         let one_stabilise = !state_first && !interleave && !self.poisoned;
         #[derive(Clone, Copy, Debug)]
